@@ -242,7 +242,7 @@ func (p *c14) Init(tier string) {
 	}
 }
 
-func (p *c14) NumCases() int { return len(p.cases) }
+func (p *c14) NumCases() int { return len(p.cases) + 1 }
 
 func (p *c14) build(c *c14case) (mk func() map[string]any, sql string, argCol string) {
 	argCol = "a"
@@ -317,6 +317,9 @@ func (p *c14) build(c *c14case) (mk func() map[string]any, sql string, argCol st
 }
 
 func (p *c14) Describe(i int) any {
+	if i == len(p.cases) {
+		return map[string]any{"kind": "a Query executed again after an execution that failed part-way (fault point behind the qualified call, at every row): ASYNC.HSLOW, SPINASYNC.HSLOW, ASYNC.HFAST x 1-2 rows; in the second execution every call is invoked once per row and awaited", "schedules": fmt.Sprintf("all schedules with <= %d preemptions", p.bound)}
+	}
 	c := &p.cases[i]
 	_, sql, _ := p.build(c)
 	return map[string]any{"query": sql, "rows": c.rows, "form": c14Forms[c.form], "schedules": fmt.Sprintf("all schedules with <= %d preemptions (harness functions yield 0-2 times)", p.bound)}
@@ -392,6 +395,10 @@ func (p *c14) sig(c *c14case, mode string) string {
 
 func (p *c14) RunCase(i int) *core.CaseResult {
 	r := &core.CaseResult{}
+	if i == len(p.cases) {
+		runChangedC14(r, p.bound)
+		return r
+	}
 	c := &p.cases[i]
 	mk, sql, _ := p.build(c)
 	want := p.expected(c)
